@@ -84,7 +84,18 @@ class SockObj(Opaque):
         cc = conc(cap)
         if w.short_reads == 'choose' and cc is not None and cc > 1 and w.short_budget > 0:
             # enumerated segmentation: this read delivers 1, 3 or all available bytes (each a separate path)
-            opts = [x for x in (1, 3) if x < cc] + [cc]
+            opts = [x for x in (1, 3) if x < cc]
+            # a segment that ends between the CR and the LF of the next line terminator (code that looks at what is buffered
+            # sees such a boundary; byte-wise readers do not)
+            p0 = conc(w.pos)
+            if p0 is not None:
+                for i in range(min(cc - 1, 160)):
+                    if conc(z3.simplify(z3.Select(w.buf.arr, bv(p0 + i)))) == 13 and \
+                            conc(z3.simplify(z3.Select(w.buf.arr, bv(p0 + i + 1)))) == 10:
+                        if i + 1 not in opts and i + 1 < cc:
+                            opts.append(i + 1)
+                        break
+            opts.append(cc)
             n = bv(opts[ctx.choose(len(opts), 'seg')])
             w.short_budget -= 1
         elif not w.short_reads or w.short_reads == 'choose' or cc == 1:
@@ -173,14 +184,61 @@ def _(it, a, info):
 # ------------------------------------------------------------------------------------------ BufReader / BufWriter
 
 class BufReaderObj(Opaque):
+    """std::io::BufReader. As long as the code only calls read(), it is an order-preserving pipe (whatever the inner reader
+    delivers, possibly less than asked for). The first fill_buf() switches on the read-ahead buffer: one read of the inner
+    reader of at most `cap` bytes fills it, fill_buf() returns what is left of it, consume(n) advances, and read() serves
+    from it first -- the semantics of std's implementation that code can observe."""
+
     def __init__(self, inner, cap):
         Opaque.__init__(self, 'BufReader')
         self.inner = Cell(inner)
         self.cap = cap
+        self.ibuf = None        # Buf holding the last fill
+        self.ipos = 0           # consumed part of it
+        self.ilen = 0           # filled part of it (concrete)
+
+    def pending(self):
+        return self.ibuf is not None and self.ipos < self.ilen
 
     def read(self, it, buf):
-        # order-preserving pipe: whatever the inner reader delivers, possibly less than asked for
+        if self.pending():
+            rem = self.ilen - self.ipos
+            bl = conc(buf.len)
+            if bl is None:
+                raise Unsupported('BufReader::read with a symbolic buffer length while read-ahead data is pending')
+            n = min(rem, bl)
+            from .models import copy_bytes
+            copy_bytes(it, buf, Slice(self.ibuf, bv(self.ipos), bv(n)), bv(n))
+            self.ipos += n
+            return Ok(bv(n))
         return reader_read(it, Ref(self.inner, (), True), buf)
+
+    def fill_buf(self, it):
+        if not self.pending():
+            cap = self.cap or 8192
+            tmp = Buf(it.ctx.fresh_arr('fill'), cap, cap, 'array')
+            res = reader_read(it, Ref(self.inner, (), True), whole(tmp))
+            if res.variant == 'Err':
+                return res
+            n = res.fields[0]
+            cn = conc(n)
+            if cn is None:
+                from .harness import concretize
+                cn = conc(concretize(it.ctx, n))
+            self.ibuf, self.ipos, self.ilen = tmp, 0, cn
+        return Ok(Slice(self.ibuf, bv(self.ipos), bv(self.ilen - self.ipos)))
+
+    def consume(self, it, n):
+        cn = conc(n)
+        if cn is None:
+            from .harness import concretize
+            cn = conc(concretize(it.ctx, n))
+        self.ipos = min(self.ilen, self.ipos + cn)
+
+    def buffer(self, it):
+        if not self.pending():
+            return whole(Buf.from_bytes(b''))
+        return Slice(self.ibuf, bv(self.ipos), bv(self.ilen - self.ipos))
 
     def on_drop(self, it, me):
         it.drop_value(self.inner.v)
@@ -366,17 +424,79 @@ def parse_responses(data, heads=None):
     return out
 
 
+def _bufread_target(it, v):
+    n = 0
+    while isinstance(v, (Ref, BoxObj)) and n < 8:
+        v = it.read(v.root, v.path) if isinstance(v, Ref) else v.cell.v
+        n += 1
+    return v
+
+
+def bufread_call(it, rref, method, extra=()):
+    """<R as BufRead>::fill_buf / consume dispatched on the run-time reader"""
+    info = {'kind': 'qualified', 'self_text': 'R', 'self_ty': 'R', 'trait': 'BufRead', 'trait_text': 'std::io::BufRead',
+            'method': method, 'text': '<R as std::io::BufRead>::' + method, 'caller': None}
+    return it.dispatch(info, [rref] + list(extra))
+
+
 @model('BufRead::fill_buf', '<BufReader as BufRead>::fill_buf', 'BufReader::fill_buf')
 def _(it, a, info):
-    r = deref(it, a[0])
-    tmp = Buf(it.ctx.fresh_arr('fill'), r.cap or 1024, r.cap or 1024, 'array')
-    res = r.read(it, whole(tmp))
-    if res.variant == 'Err':
-        return res
-    r.filled = Slice(tmp, bv(0), res.fields[0])
-    raise Unsupported('BufReader::fill_buf: buffered read-ahead is outside the pipe model of BufReader')
+    r = _bufread_target(it, a[0])
+    if isinstance(r, BufReaderObj):
+        return r.fill_buf(it)
+    raise Unsupported('BufRead::fill_buf on %r' % (r,))
+
+
+@model('BufRead::consume', '<BufReader as BufRead>::consume', 'BufReader::consume')
+def _(it, a, info):
+    r = _bufread_target(it, a[0])
+    if isinstance(r, BufReaderObj):
+        r.consume(it, a[1])
+        return unit()
+    raise Unsupported('BufRead::consume on %r' % (r,))
 
 
 @model('BufReader::buffer')
 def _(it, a, info):
-    return whole(Buf.from_bytes(b''))
+    r = _bufread_target(it, a[0])
+    if isinstance(r, BufReaderObj):
+        return r.buffer(it)
+    raise Unsupported('BufReader::buffer on %r' % (r,))
+
+
+@model('BufRead::read_until')
+def _(it, a, info):
+    """provided method of BufRead, as std implements it: fill_buf, look for the delimiter, copy up to and including it, consume"""
+    from .models import buf_append
+    rref, delim, vec = a[0], a[1], a[2]
+    out = _bufread_target(it, vec)
+    total = 0
+    rounds = 0
+    while True:
+        rounds += 1
+        if rounds > 64:
+            raise Unsupported('read_until exceeded its round bound')
+        res = bufread_call(it, rref, 'fill_buf')
+        if res.variant == 'Err':
+            k = res.fields[0].fields[0] if isinstance(res.fields[0], Struct) and res.fields[0].fields else None
+            if isinstance(k, Enum) and k.variant == 'Interrupted':
+                continue
+            return res
+        s = res.fields[0]
+        n = conc(s.len)
+        if n is None:
+            raise Unsupported('read_until over a buffer of symbolic length')
+        if n == 0:
+            return Ok(bv(total))
+        used = n
+        found = False
+        for i in range(n):
+            if it.ctx.branch(s.at(i) == delim):
+                used = i + 1
+                found = True
+                break
+        buf_append(it, out, Slice(s.buf, s.off, bv(used)))
+        bufread_call(it, rref, 'consume', [bv(used)])
+        total += used
+        if found:
+            return Ok(bv(total))
